@@ -410,6 +410,8 @@ def main():
             calls.append("    d%d::run(&mut rep);" % (base + ncombo))
             index.append({"k": base + ncombo, "combo": ds})
             ncombo += 1
+        parts.append(open(os.path.join(os.path.dirname(os.path.abspath(__file__)), "progs_extras.rs")).read())
+        calls.append("    extras::run(&mut rep);")
         parts.append(MAIN % ("\n".join(calls), len(defs)))
         open(os.path.join(out_dir, "src", "main.rs"), "w").write("".join(parts))
         open(os.path.join(out_dir, "Cargo.toml"), "w").write('''[package]
